@@ -192,6 +192,10 @@ func (c *Ctx) Flush() {
 			agree = model == o.impl
 		case "urltext":
 			agree = modelURLText(model) == o.impl
+		case "implies":
+			// the model evaluates the hypothesis of a theorem ("clean"), the implementation its conclusion
+			agree = !(model == "clean" && o.impl != "idempotent")
+			c.Hit("second-pass:" + model + "/" + o.impl)
 		case "normtext":
 			// the model answers "error" for any decode/encode error; otherwise exact ordered text
 			if strings.HasPrefix(model, "error") {
